@@ -136,6 +136,12 @@ def finish(prop, tier, seed, t0, ctx, explanation, rule_texts, min_counts, trust
         "modules_parsed": len(ctx.R.modules),
         "source_digest": ctx.R.digest(),
         "repo_root": ctx.R.root,
+        "normalisation": {
+            "functions_outside_baseline_table": list(getattr(ctx.R, "new_functions", [])),
+            "helpers_spliced_into_callers": {k: v for k, v in getattr(ctx.R, "inlined", {}).items()},
+            "helpers_absorbed": list(getattr(ctx.R, "absorbed", [])),
+            "constant_table_loops_unrolled": dict(getattr(ctx.R, "unrolled", {})),
+        },
         "samples": samples,
         "notes": ctx.notes,
         "undecided_rules": [{"rule_function": n, "reason": m} for n, m in ctx.undecided],
